@@ -5,7 +5,7 @@ from .. import tys as T
 from .. import catalogue as K
 
 THEOREMS = ["c05_int_exact", "c05_in_domain", "c05_unit", "c05_bool", "c05_string", "c05_char", "c05_f64_total", "c05_f32_total", "c05_round_even_nearest",
-            "c05_f64_of_int_exact", "c05_f64_of_int_rounded", "c05_f32_of_int_exact", "c05_f32_of_int_rounded", "c05_float_of_negative", "c05_f32_of_f64_normal", "c05_f32_of_f64_unfold", "c05_f32_of_f64_subnormal"]
+            "c05_f64_of_int_exact", "c05_f64_of_int_rounded", "c05_f32_of_int_exact", "c05_f32_of_int_rounded", "c05_float_of_negative", "c05_f32_of_f64_normal", "c05_f32_of_f64_unfold", "c05_f32_of_f64_subnormal", "c05_f32_of_f64_special"]
 
 
 def boundary_values():
